@@ -4,7 +4,7 @@ from . import proggen as G
 
 ID = "C14"
 # override-kinds cases: the model IS the property there - literal_reaches_operand_override(_def) hold for a scope of any declared kinds
-SPEC_IS_ORACLE = lambda c: "override-kinds" in c.tags
+SPEC_IS_ORACLE = lambda c: "override-kinds" in c.tags or "refused-entry-in-override-list" in c.tags
 # theorems of Props/Tables.lean over the tables TRANSLATED from /repo/src and libccp's headers on every run (DESIGN 11.7)
 TABLE_THEOREMS = ['src_regEnc_eq']
 THEOREMS = [
@@ -98,6 +98,17 @@ def gen(ctx):
             k = rng.sample(KNAMES, rng.choice([2, 3, 8]))
             yield Case("CMP", "%s %s %s" % (G.hx(KINDS + " " + body), ";".join("%s=%d" % (G.hx(n), rng.choice([0, 1, 2, 7, 2**31 - 1, 2**31])) for n in k), names_arg),
                        tags=("override-kinds", "-"))
+    # an override list may contain entries the compiler refuses to apply (an unknown name, Cwnd / Rate - which set_program accepts in
+    # the same kind of list -, a primitive): the OTHER entries are applied all the same, wherever the refused one stands (round 6:
+    # the first refused entry ended the whole override pass, the later overrides were silently dropped)
+    for body in BODIES[:2]:
+        for bad in ("nosuch", "Cwnd", "Rate", "Ack.now", "Micros", "__eventFlag"):
+            for nm in ("cn", "Report.rn", "ci", "cb"):
+                for v in (7, 5000, 2**31 - 1, 2**31, 3000000000, 2**32 - 1):
+                    for order in (0, 1, 2):
+                        ents = [(bad, 1), (nm, v)] if order == 0 else [(nm, v), (bad, 1)] if order == 1 else [("cvb", 1), (bad, 14600), (nm, v)]
+                        yield Case("CMP", "%s %s %s" % (G.hx(KINDS + " " + body), ";".join("%s=%d" % (G.hx(n), x) for n, x in ents), names_arg),
+                                   tags=("refused-entry-in-override-list", "-"))
     # +infinity and literals inside generated programs (correspondence only)
     yield Case("CMP", "%s - -" % G.hx(T_OPERAND % "+infinity"), tags=("infinity", "-"))
     yield Case("CMP", "%s - -" % G.hx(T_DEFINITION % "+infinity"), tags=("infinity", "-"))
